@@ -194,12 +194,39 @@ def rule_select(prog: Program) -> RuleResult:
                     flag_ok = len(sets_true) == 1 and len(sets_false) == 1 and cfg.dominates(sets_true[0].id, rn.id) and set(sets_true[0].loops) == set(rn.loops) and len(sets_false[0].loops) == len(ln.loops)
     r.check(ok_r and flag_ok, "ExceptIf._evaluate__#left-only-without-exception", site(f), "", "left conclusions are emitted exactly when no right result was true for this left binding",
             "the refinement does not override its parent exactly when it fires (left conclusions are not gated by 'no true right result')")
+    # the two result loops and their loop variables (the iterable may be bound to a local first)
+    single = {}
+    for n in walk_local(f.node):
+        if isinstance(n, ast.Assign) and len(n.targets) == 1 and isinstance(n.targets[0], ast.Name):
+            single.setdefault(n.targets[0].id, []).append(n.value)
+
+    def loop_over(role: str):
+        for lp in [n for n in walk_local(f.node) if isinstance(n, ast.For) and isinstance(n.target, ast.Name)]:
+            it = lp.iter
+            if isinstance(it, ast.Name) and len(single.get(it.id, [])) == 1:
+                it = single[it.id][0]
+            if isinstance(it, ast.Call) and call_name(it) == "_evaluate__" and isinstance(it.func, ast.Attribute) and is_self_attr(it.func.value, role):
+                return lp, it
+        return None, None
+
+    left_loop, left_eval = loop_over("left")
+    right_loop, right_eval = loop_over("right")
+    if left_loop is None or right_loop is None:
+        raise AnalysisError("RULE-SELECT: ExceptIf._evaluate__ no longer loops over the results of its left and right operands")
+    lv, rv = left_loop.target.id, right_loop.target.id
     # false right results are skipped
-    skip = any(isinstance(t.stmt, ast.If) and "right_value.is_false" in src(t.stmt.test) and any(isinstance(s, ast.Continue) for s in t.stmt.body) for t in cfg.nodes if t.kind == "test")
+    skip = False
+    for st in ast.walk(right_loop):
+        if isinstance(st, ast.If):
+            t = src(st.test)
+            if t == f"{rv}.is_false" and any(isinstance(x, ast.Continue) for x in st.body):
+                skip = True
+            if t in (f"{rv}.is_true", f"not {rv}.is_false") and any(call_name(c) == "yield_and_update_conclusion" for b in st.body for c in calls_in(b)):
+                skip = True
     r.check(skip, "ExceptIf._evaluate__#false-right-skipped", site(f), "", "a false refinement result does not count as an exception", "a false refinement result is treated as firing")
-    # right evaluated with the left result's bindings
-    rc = [c for c in calls_in(f.node) if call_name(c) == "_evaluate__" and src(c.func.value) == "self.right"]
-    r.check(len(rc) == 1 and src(rc[0].args[0]) == "left_value.bindings", "ExceptIf._evaluate__#right-under-left-binding", site(f), src(rc[0]) if rc else "",
+    # right evaluated with the left result's bindings, inside the iteration over the left results
+    nested = any(x is right_loop for x in ast.walk(left_loop))
+    r.check(nested and bool(right_eval.args) and src(right_eval.args[0]) == f"{lv}.bindings", "ExceptIf._evaluate__#right-under-left-binding", site(f), src(right_eval),
             "the refinement is evaluated for the binding that satisfied the parent", "the refinement is not evaluated under the parent's binding: conclusions are built from the wrong values")
     y = prog.method(ex.qual, "yield_and_update_conclusion", inherited=False)
     _emission_protocol(r, y, "ExceptIf.yield_and_update_conclusion")
